@@ -128,7 +128,7 @@ class ShimNPModel(shim.ShimNP):
 
 
 @contextmanager
-def session(env, merge_init=True):
+def session(env, merge_init=True, outline_pars=False):
     am, ap, au, apar, afp = modules()
     if not env.symbolic:
         yield None
@@ -152,7 +152,7 @@ def session(env, merge_init=True):
     patches += [(sf, "exp", snp.exp), (sf, "floor", snp.floor)]
     with ExitStack() as st:
         st.enter_context(shim.Installed(patches))
-        st.enter_context(merge_points(am, True))
+        st.enter_context(merge_points(am, True, outline_pars=outline_pars))
         if merge_init:
             f = am.Population.__dict__["initialize_compartments"]
             w = merged(f, name="Population.initialize_compartments", heap_from=lambda self, *a, **k: self.comps + self.characs + self.pars + self.links)
@@ -253,7 +253,11 @@ def build_model(env, settings, framework, parset, progset=None, instructions=Non
             if isinstance(var, am.Parameter):
                 var._source_popsize_cache_time = -1
                 var._source_popsize_cache_val = 0.0
-        env.heap(all_vars(m))
+        if isinstance(getattr(m, "interactions", None), dict):
+            for k, v in list(m.interactions.items()):
+                if isinstance(v, np.ndarray) and v.dtype != object:
+                    m.interactions[k] = shim.obj(v)
+        env.heap(all_vars(m) + [m])  # the model object itself: its interaction weight arrays are numeric state too
     return m
 
 
